@@ -32,6 +32,7 @@ std::vector<Out> outs;
 struct Sym{ int id; double lo,hi,v; uint64_t node; };
 std::vector<Sym> syms; std::unordered_map<int,size_t> symidx;
 std::vector<std::pair<std::string,long>> notes;
+std::vector<long> rec_ints, replay_ints; size_t replay_pos=0; bool replay_loaded=false;
 std::string assumed_away; bool has_assumed=false;
 long escapes=0, nan_true=0, steps=0, maxsteps=0, symops=0; std::string escape_what;
 bool dumped=false;
@@ -123,6 +124,12 @@ void fpsym_check(int cond,const char*label){ Guard g; checks.push_back({cond,lab
 void fpsym_output(double v,const char*tag){ Guard g; outs.push_back({tag,A(0),v}); tvalid=0; }
 void fpsym_note(const char*key,long v){ Guard g; notes.push_back({key,v}); tvalid=0; }
 double fpsym_concrete(double v){ tvalid=0; tret[0]=tret[1]=0; return v; }
+// harness-internal integers that depend on expression identity (e.g. numbering of distinct points): recorded on the explored run,
+// replayed verbatim on the plain build so that both builds use the same symbol for the same point
+long fpsym_recorded(long computed){ Guard g; tvalid=0;
+  if(!replay_loaded){ replay_loaded=true; if(const char*fn=getenv("FPSYM_REPLAY_INTS")){ FILE*f=fopen(fn,"r"); if(f){ long v; while(fscanf(f,"%ld",&v)==1) replay_ints.push_back(v); fclose(f);} } }
+  long r = computed; if(replay_pos < replay_ints.size()) r = replay_ints[replay_pos]; replay_pos++;
+  rec_ints.push_back(r); return r; }
 long fpsym_exprid(double v){ long r=(long)A(0); tvalid=0; return r; }
 long fpsym_pc_size(void){ return (long)pc.size(); }
 void fpsym_assume(int cond,const char*label){ tvalid=0; if(cond) return; { Guard g; has_assumed=true; assumed_away=label; dump("assumed_away"); } _exit(0); }
@@ -142,5 +149,6 @@ void dump(const char*status){ if(dumped) return; dumped=true; const char*fn=gete
   fprintf(f,"],\n\"checks\":["); for(size_t i=0;i<checks.size();i++) fprintf(f,"%s[%d,\"%s\"]",i?",":"",checks[i].cond,esc(checks[i].label).c_str());
   fprintf(f,"],\n\"outs\":["); for(size_t i=0;i<outs.size();i++) fprintf(f,"%s[\"%s\",%lu,\"%a\"]",i?",":"",esc(outs[i].tag).c_str(),outs[i].id,outs[i].v);
   fprintf(f,"],\n\"notes\":["); for(size_t i=0;i<notes.size();i++) fprintf(f,"%s[\"%s\",%ld]",i?",":"",esc(notes[i].first).c_str(),notes[i].second);
+  fprintf(f,"],\n\"ints\":["); for(size_t i=0;i<rec_ints.size();i++) fprintf(f,"%s%ld",i?",":"",rec_ints[i]);
   fprintf(f,"],\n\"assumed_away\":\"%s\",\"escapes\":%ld,\"escape_what\":\"%s\",\"nan_true\":%ld,\"steps\":%ld,\"total_nodes\":%zu,\"symops\":%ld}\n",esc(assumed_away).c_str(),escapes,esc(escape_what).c_str(),nan_true,steps,nodes.size(),symops); fclose(f); }
 }
